@@ -123,6 +123,14 @@ def decorate(form, f, shape, sel):
         return M.kwoargs(*sel[1], start=sel[0])(f)
     if form == 'end+names':
         return M.posoargs(*sel[1], end=sel[0])(f)
+    if form == 'kwo>end':           # kwoargs(K) first, posoargs(end=e) outside
+        return M.posoargs(end=sel[1])(M.kwoargs(*sel[0])(f))
+    if form == 'end>kwo':
+        return M.kwoargs(*sel[0])(M.posoargs(end=sel[1])(f))
+    if form == 'poso>start':
+        return M.kwoargs(start=sel[1])(M.posoargs(*sel[0])(f))
+    if form == 'start>poso':
+        return M.posoargs(*sel[0])(M.kwoargs(start=sel[1])(f))
     if form == 'auto':
         return M.autokwoargs(f)
     if form == 'auto-exc':
@@ -154,6 +162,24 @@ def model(form, shape, sel):
     if form == 'end+names':
         s = end_selection(shape, sel[0])
         return None if s is None else expected_shape(shape, (), s | set(sel[1]))
+    if form in ('kwo>end', 'end>kwo', 'poso>start', 'start>poso'):
+        names, anchor = sel
+        first_names = form in ('kwo>end', 'poso>start')
+        kw_names = form in ('kwo>end', 'end>kwo')
+
+        def step_names(sh):
+            return expected_shape(sh, names, ()) if kw_names else expected_shape(sh, (), names)
+
+        def step_anchor(sh):
+            if kw_names:        # the anchored step is posoargs(end=)
+                sel_ = end_selection(sh, anchor)
+                return None if sel_ is None else expected_shape(sh, (), sel_)
+            sel_ = start_selection(sh, anchor)
+            return None if sel_ is None else expected_shape(sh, sel_, ())
+        sh1 = step_names(shape) if first_names else step_anchor(shape)
+        if sh1 is None:
+            return None
+        return step_anchor(sh1) if first_names else step_names(sh1)
     if form == 'auto':
         return expected_shape(shape, auto_selection(shape, ()), ())
     if form == 'auto-exc':
@@ -176,6 +202,11 @@ def cases(shape):
             if other != nm:
                 yield 'start+names', (nm, (other,))
                 yield 'end+names', (nm, (other,))
+    for nm in names:
+        for other in names:
+            if other != nm:
+                for form in ('kwo>end', 'end>kwo', 'poso>start', 'start>poso'):
+                    yield form, ((other,), nm)
     yield 'auto', None
     for E in subsets(names):
         if E:
@@ -320,7 +351,10 @@ def eval_case(shape, form, sel, st, replaying=False):
             bsig = inspect.signature(inst.m)
             ssig = sigtools.signature(inst.m)
         except Exception as e:  # noqa
-            st.violation('signature-retrieval-raises', case, dict(base, route='bound', error='%s: %s' % (type(e).__name__, e)), {'form': form})
+            feat = {'form': form}
+            if form in ('kwo>end', 'end>kwo', 'poso>start', 'start>poso') and isinstance(e, ValueError):
+                feat = {'cause': 'stacked-start-end-rebinding'}
+            st.violation('signature-retrieval-raises', case, dict(base, route='bound', error='%s: %s' % (type(e).__name__, e)), feat)
             return
         if not sig_matches(bsig, exp[1:]) or not sig_matches(ssig, exp[1:]):
             st.violation('advertised-signature-wrong', case,
@@ -355,6 +389,8 @@ def _names_first(form, sel, name):
         return sel == name
     if form in ('start+names', 'end+names'):
         return sel[0] == name or name in sel[1]
+    if form in ('kwo>end', 'end>kwo', 'poso>start', 'start>poso'):
+        return name in sel[0] or sel[1] == name
     if form == 'auto-exc':
         return name in sel
     return False
